@@ -109,6 +109,33 @@ ListMismatches(w, obs) ==
               \cup PeerSetMismatches(w, obs)
 
 ---------------------------------------------------------------------------
+(* C16: --focusworkload is a pure filter of the unfocused report of the    *)
+(* same input.  W matches a peer by name or by namespace/name (also the    *)
+(* {ingress-controller} peer).                                             *)
+FocusMatch(po, W) == po.t \in {"w", "ing"} /\ (po.name = W \/ (po.ns \o "/" \o po.name) = W)
+EntrySig(e) == <<e.src.key, e.dst.key, e.all, e.pp>>
+FocusMismatches(w, full, W, fobs) ==
+  CASE fobs.outcome = "panic" -> {<<"panic", fobs.errMsg>>}
+    [] fobs.outcome = "error" -> {<<"C16-focus-returned-an-error", W, fobs.errMsg>>}
+    [] fobs.outcome = "ok" ->
+      LET want == {EntrySig(full.conns[i]) : i \in {i \in DOMAIN full.conns :
+                      FocusMatch(full.conns[i].src, W) \/ FocusMatch(full.conns[i].dst, W)}}
+          got  == {EntrySig(fobs.conns[i]) : i \in DOMAIN fobs.conns}
+          known == \E i \in DOMAIN full.peers : FocusMatch(full.peers[i], W)
+          \* with Ingress / Route objects in the input the ingress controller is a (pseudo) workload of the input,
+          \* possibly one without connections -- like any other workload without connections it needs no warning
+          ingKnown == W = "ingress-controller" /\ (Len(w.ingresses) + Len(w.routes) > 0)
+          \* an input without any workload already carries its own "no workload resources" entry
+          warned == \E i \in DOMAIN fobs.errors : fobs.errors[i].class \in {"focusMissing", "focusNoIngress", "noWorkloads"}
+          \* focusing must not add severe / fatal entries to those of the unfocused run
+          sev(o) == {o.errors[i].class : i \in {i \in DOMAIN o.errors : o.errors[i].severe \/ o.errors[i].fatal}}
+          bad == ~(sev(fobs) \subseteq sev(full))
+      IN (IF got = want /\ Cardinality(got) = Len(fobs.conns) THEN {}
+          ELSE {<<"C16-not-a-filter", W, "missing", want \ got, "extra", got \ want>>})
+         \cup (IF ~known /\ ~ingKnown /\ ~warned THEN {<<"C16-no-warning-for-unknown-workload", W>>} ELSE {})
+         \cup (IF bad THEN {<<"C16-severe-or-fatal-entry", W>>} ELSE {})
+
+---------------------------------------------------------------------------
 (* C03: eval.  One aggregated query q = [s, d, same, r, msg]: s, d are     *)
 (* <<"w", i, pod>> / <<"a", class, 0>>; r[k][n] is the reply for protocol  *)
 (* ProtoSeq[k] and model port n: 0 false, 1 true, 2 error, 3 inconsistent  *)
